@@ -82,10 +82,14 @@ def _split_top(s: str):
 
 
 def run(module, cfg=None, *, workers=16, env=None, simulate=None, depth=None, timeout=600, extra=(), spec_dir=SPEC,
-        heap="4g", seed=None, deadlock=None, allow_violation=True, coverage=False):
+        heap="4g", seed=None, deadlock=None, allow_violation=True, coverage=False, cfg_text=None):
     """Run TLC on spec_dir/module.tla with spec_dir/cfg (default module.cfg)."""
     cfg = cfg or module + ".cfg"
     meta = scratch("tlc")
+    if cfg_text is not None:
+        cfg = os.path.join(meta, "generated.cfg")
+        with open(cfg, "w") as f:
+            f.write(cfg_text)
     cmd = ["java", "-XX:+UseParallelGC", "-Xss512m", f"-Xmx{heap}", "-cp", f"{JAR}:{DEPS}", "tlc2.TLC",
            "-metadir", meta, "-noGenerateSpecTE", "-config", cfg, "-workers", str(workers)]
     mode = "bfs"
